@@ -5,6 +5,12 @@ From BV Require Import State.Caches State.CacheProofs.
 From BVgen Require Import CacheKeys.
 Import ListNotations.
 
+(* the purity scan of the algebra files found no in-place update of an array reachable from self / an operand *)
+Lemma cur_pure : t_pure cur = true.
+Proof. reflexivity. Qed.
+Lemma cur_no_inplace_updates : inplace_updates = [].
+Proof. reflexivity. Qed.
+
 Definition all_kinds : list kind := [KDense; KSingular; KSparse; KPotential; KFmm; KFmmPotential].
 Definition honours_own (k : kind) : bool := all_own (reads_of cur k) || is_fmm k.
 
@@ -23,7 +29,7 @@ Lemma cur_dense_history_free : forall h i o d,
   nth_error (s_ops (run cur h)) i = Some o -> is_fmm (o_kind o) = false -> o_cached o = Some d ->
   exists p, o_snapshot o = Some p /\
             d = created_desc cur (o_kind o) (o_cparams o) ++ assemble_desc cur (o_kind o) p.
-Proof. intros h i o d H F C. eapply own_history_free; eauto using cur_explicit_parameters_honoured. Qed.
+Proof. intros h i o d H F C. eapply own_history_free; eauto using cur_explicit_parameters_honoured, cur_pure. Qed.
 
 Lemma cur_fresh_process : forall k args p, is_fmm k = false ->
   observe (run cur [CreateOp k args (Some p); WeakForm 0]) 0 = Some (fresh_desc cur k p).
@@ -50,3 +56,7 @@ Definition global_reads (k : kind) : list field :=
   map (fun r => fst (fst r)) (filter (fun r => src_eqb (snd (fst r)) Global) (reads_of cur k)).
 Lemma cur_fmm_global_reads : global_reads KFmm = [QReg] /\ global_reads KFmmPotential = [QReg].
 Proof. vm_compute. auto. Qed.
+
+(* assembling any derived operator (-A, alpha*A, A-B, A*B, ...) leaves every cached weak form as it was: all histories *)
+Lemma cur_derived_assembly_pure : forall h' s i d, observe s i = Some d -> observe (fold_left (step cur) h' s) i = Some d.
+Proof. apply cached_write_once. exact cur_pure. Qed.
